@@ -30,6 +30,12 @@ CHECKS = {
         "Trusted base: model.rs (A16). Result conversion to the function name's type is not documented: bodies are wrapped in CINT/CSNG/CDBL.",
         "6 C10",
     ),
+    "C11": (
+        "exhaustive enumeration of all Integers + proptest-generated Single/Double bit patterns judged by round-trip and minimality of the printed digits; proptest-generated PRINT programs against the reference column model; the manual's examples literally",
+        "Exploration with two independent oracles: (a) every printed number must start with blank/minus, end with one blank, read back to the same bits of its type and be no longer than the shortest round-trip form - complete for Integers, sampled over boundary-rich distributions for floats; (b) a column model (zones of 14, TAB, SPC, POS, embedded line feeds, trace text, INPUT and error resets, column carried across statements, lines, runs) prescribes the whole transcript of generated PRINT programs.",
+        "The number oracle is independent of the notation the implementation chooses; the layout model uses the reference formatter for number texts.",
+        "6 C11",
+    ),
     "C12": (
         "differential testing over proptest-generated session prefixes (earlier complete/failed/stopped/interrupted runs, direct assignments, DIM, DEFtype, partial READ, open FOR/GOSUB frames, program switches): RUN after the prefix vs RUN in a fresh interpreter; CLEAR/NEW + probe battery vs fresh",
         "Exploration of session histories with a differential oracle: whatever the prefix left behind, RUN / RUN n must give the transcript and final variables of a fresh interpreter holding the same listing, and after CLEAR or NEW an 18-probe battery (every name, re-DIM, DEFtype exposure, READ, RETURN, NEXT, CONT, FNx) must be indistinguishable from a fresh start.",
